@@ -29,7 +29,7 @@ use std::collections::BTreeMap;
 use std::sync::atomic::{AtomicUsize, Ordering};
 use std::sync::Mutex;
 
-pub const PROBE_NAMES: [&str; 14] = [
+pub const PROBE_NAMES: [&str; 17] = [
     "fault_on_first_call",
     "fault_on_last_call_of_reference_run",
     "fault_after_reference_run",
@@ -44,6 +44,9 @@ pub const PROBE_NAMES: [&str; 14] = [
     "fault_fired_in_nested_poll_run",
     "fault_fired_in_sequential_multi_instance_run",
     "clamping_branch_ran",
+    "domain_fault_plans_placed",
+    "fault_on_call_with_non_finite_state",
+    "non_finite_state_domain_plans",
 ];
 
 const DEFAULT_SEED: u64 = 20260926;
